@@ -445,6 +445,25 @@ theorem yuv_scanline_is_map_of_fetch_pixel (m : Mem) (bits rowstride height line
 
 example : fetchPixelYuy2 (fun a => if a % 2 = 0 then 0x80 else 0x80) 0 3 = 0xff828282 := by decide
 
+/-! ## accessor images: which build is selected -/
+
+/-- the regenerated conditions of `_pixman_bits_image_setup_accessors`, of the `FAST_PATH_NO_ACCESSORS` flag and of
+`pixman_rasterize_edges` are all the model's selection: the three places agree on what an accessor image is -/
+theorem gen_accessor_selection : ∀ r w : Bool,
+    Pixman.Gen.Formats.accessorBuildSelected r w = usesAccessorBuild r w ∧
+    Pixman.Gen.Formats.noAccessorsFlagCleared r w = usesAccessorBuild r w ∧
+    Pixman.Gen.Formats.edgeAccessorsSelected r w = usesAccessorBuild r w := by decide
+
+/-- the callback build is used exactly when a reader **or** a writer is installed: an image with a single
+callback is an accessor image -/
+theorem accessor_build_iff_any_callback (readFunc writeFunc : Bool) :
+    Pixman.Gen.Formats.accessorBuildSelected readFunc writeFunc = true ↔ (readFunc = true ∨ writeFunc = true) := by
+  rw [(gen_accessor_selection readFunc writeFunc).1]
+  unfold usesAccessorBuild
+  simp
+
+example : Pixman.Gen.Formats.accessorBuildSelected true false = true ∧ Pixman.Gen.Formats.accessorBuildSelected false true = true := by decide
+
 /-! ## not proved here
 
 * Accessor equivalence: pixman-access-accessors.c is the same source recompiled with `READ`/`WRITE` calling the
